@@ -278,6 +278,10 @@ def strip_tests(src):
 def transform_file(rel, src, stats):
     if rel.endswith("passage-protocol/src/metrics.rs"):
         return stub_metrics(src)
+    if rel.endswith("passage-adapters/http/src/status_adapter.rs"):
+        return "// R15: the cached HTTP status adapter (background refresh task) is not part of any encoded property\n"
+    if rel.endswith("passage-adapters/http/src/lib.rs"):
+        src = re.sub(r"pub use status_adapter::[^;]*;\n", "", src)
     s = strip_tests(src)
     n_await = len(re.findall(r"\.await\b", s))
     n_async = len(re.findall(r"\basync\b", s))
@@ -347,7 +351,7 @@ cfb8 = {{ path = "{shims}/cfb8" }}
     return head
 
 
-def regenerate(repo, verif, ws, crates=("passage-packets", "passage-adapters", "passage-protocol"), seed_only=False):
+def regenerate(repo, verif, ws, crates=("passage-packets", "passage-adapters", "passage-protocol", "passage-adapters-http"), seed_only=False):
     stats = {"await": 0, "async": 0, "select": 0, "hashmap": 0, "systemtime": 0, "files": 0}
     os.makedirs(ws, exist_ok=True)
     members = []
